@@ -35,7 +35,7 @@ def cases(seed, tier):
             plugin = "systemd_restart"
         else:
             plugin = rng.choice(KG.PLUGINS)
-            cgs, info, pids = KG.gen_tree(rng, depth=rng.choice([1, 2, 3]), fan=3, pidcounts=(1, 1, 2, 21), unpop_p=0.0, pref_p=0.3)
+            cgs, info, pids = KG.gen_tree(rng, depth=rng.choice([1, 2, 3]), fan=3, pidcounts=rng.choice([(1, 1, 2, 21), (0, 0, 1, 2), (0, 1)]), unpop_p=0.0, pref_p=0.3, oomgroup_p=0.3)
             pats = KG.patterns_for(rng, info)
             args = KG.kill_args(rng, plugin, pats)
             if rng.random() < 0.2:
